@@ -321,6 +321,12 @@ class NetworkAnalyzer:
                 per_loop_transfer_cost.max_traffic
                 + child_network_stats.max_traffic.get(self.node.name, 0),
             )
+            # Links along other dimensions below this loop keep their own traffic
+            for k, v in child_network_stats.max_traffic.items():
+                if k != self.node.name:
+                    accumulated_network_stats.max_traffic[k] = max_nonzero(
+                        accumulated_network_stats.max_traffic.get(k, 0), v
+                    )
 
         overall_max_hops = {}
         for model in self.topology_models.values():
